@@ -348,6 +348,8 @@ func (x *Exec) assumeWellTyped(st *State, v Value) {
 			return
 		}
 		st.assume(Term{fmt.Sprintf("(and (>= %s 0) (=> (= %s 0) (= %s 0)))", v.Tag.S, v.Tag.S, v.Val.S), SBool})
+		// a payload that is a reference denotes an object that already exists
+		st.assume(x.refBound(st, v.Val))
 	case StructV:
 		for _, f := range v.Fields {
 			x.assumeWellTyped(st, f)
